@@ -106,6 +106,13 @@ func miscOp(f []string) (string, bool) {
 	case "poly":
 		// poly <pp> <size> <base> <op> <p> <q>
 		gf := utils.NewGaloisField(atoi(f[1]), atoi(f[2]), atoi(f[3]))
+		switch f[4] {
+		case "mono": // NewMonominalPoly(degree p, coefficient q)
+			return "ok r=" + joinInts(utils.NewMonominalPoly(gf, atoi(f[5]), atoi(f[6])).Coefficients), true
+		case "mulmono": // p.MultByMonominal(degree, coefficient), q = "degree,coefficient"
+			dc := ints(f[6])
+			return "ok r=" + joinInts(utils.NewGFPoly(gf, ints(f[5])).MultByMonominal(dc[0], dc[1]).Coefficients), true
+		}
 		p := utils.NewGFPoly(gf, ints(f[5]))
 		q := utils.NewGFPoly(gf, ints(f[6]))
 		switch f[4] {
